@@ -8,6 +8,7 @@ pub mod c06;
 pub mod c07;
 pub mod c09;
 pub mod c10;
+pub mod c13;
 pub mod c14;
 pub mod c16;
 pub mod c17;
@@ -42,6 +43,10 @@ pub fn lookup(id: &str) -> Option<Prop> {
         "C10" => Prop {
             check: c10::check,
             replay: c10::replay,
+        },
+        "C13" => Prop {
+            check: c13::check,
+            replay: c13::replay,
         },
         "C14" => Prop {
             check: c14::check,
